@@ -219,6 +219,20 @@ def r7(ctx: Ctx) -> RuleReport:
     need = {'penman.__main__:process', 'penman.__main__:_check'}
     if not need <= set(sc.chain) and not rep.violations():
         raise AnalysisError(f'R7: status chain {sc.chain} no longer reaches process and _check')
+    # _check: the status is decided on the complete error report (nothing is removed from it first)
+    ck = ctx.repo.func('penman.__main__', '_check')
+    ev = [nm for nm, vals in ctx.cg.local_assigns(ck).items() if any(isinstance(v, ast.Call) and isinstance(v.func, ast.Attribute) and v.func.attr == 'errors' for v in vals)]
+    for nm in ev:
+        muts = [n for n in walk_local(ck.node) if (isinstance(n, ast.Call) and isinstance(n.func, ast.Attribute) and norm(n.func.value) == nm
+                                                   and n.func.attr in ('pop', 'popitem', 'clear')) or
+                (isinstance(n, ast.Delete) and any(isinstance(t, ast.Subscript) and norm(t.value) == nm for t in n.targets))]
+        tests = [nd for nd in CFG(ck.node).nodes if nd.kind == 'cond' and norm(nd.ast) in (nm, f'not {nm}', f'len({nm}) > 0', f'len({nm})')]
+        key = 'penman.__main__:_check: the exit status reflects every entry of the error report'
+        if muts and tests and min(m.lineno for m in muts) < max(t.ast.lineno for t in tests):
+            rep.violation(key, ck.loc(muts[0]), f'`{norm(muts[0])[:50]}` removes entries from the report before `{norm(tests[-1].ast)}` decides the status: a graph whose '
+                          f'only problems are graph-level ("graph is empty", "top is not set") gets its error metadata but --check exits 0')
+        else:
+            rep.add(key, ck.loc(), 'ok' if tests else 'undecided')
     # in process(): the model check depends on the --check flag only (not on the output format or anything else)
     pr = ctx.repo.func('penman.__main__', 'process')
     params = set(pr.params)
@@ -377,6 +391,18 @@ def r24(ctx: Ctx) -> RuleReport:
         core = [(lo, hi) for _, lo, hi, lab in pcs
                 if not any((first, lab) in allowed for first in labs)]   # allowed re-runs do not widen the summary
         summaries[fi.fq] = (min(lo for lo, _ in core), max(hi for _, hi in core))
+    # the tree that is formatted always comes out of configure or reconfigure (no path skips the layout step)
+    po = ctx.repo.func('penman.__main__', '_process_out')
+    cfgo = CFG(po.node)
+    pmo = ctx.repo.parent_map(po.node)
+    lay = {owner_node(cfgo, pmo, c) for c, ts in ctx.cg.calls_in(po)
+           if any(t.kind == 'func' and t.func.fq in ('penman.layout:configure', 'penman.layout:reconfigure') for t in ts)}
+    retn = {nd.id for nd in cfgo.nodes if nd.kind == 'stmt' and isinstance(nd.ast, ast.Return)}
+    skip = cfgo.path_avoiding([(cfgo.entry, None)], retn or {cfgo.exit}, lambda nd: nd.id in lay)
+    rep.add('penman.__main__:_process_out: every graph is laid out by configure or reconfigure before it is written', po.loc(),
+            'violation' if skip else 'ok',
+            'a path returns a tree without configuring the graph (' + ' -> '.join(repr(cfgo.nodes[x]) for x in skip[-4:])[:200] +
+            '): the tool then writes something else than the library pipeline (configure normalises "(b / )" to "(b)", :ARG0-of-of ...)' if skip else '')
     # value threading: each graph/tree operation consumes the current value and its result replaces it
     for fi in funcs[:2]:
         for call, lo, hi, lab in _pipeline_calls(ctx, fi, idx, {}):
